@@ -1,11 +1,113 @@
 import Tuc.Model.Space2
 import Tuc.Props.ReadLoops
 import Tuc.Props.Space
-import Tuc.Props.CutStrLit
-import Tuc.Props.WholeLit
 import Tuc.Lemmas.Total
 import Tuc.Lemmas.RegexSpec
 import Tuc.Props.C12
+/-!
+# Tuc.Props.Space2 — C17 for the GENERAL engine, by ghost instrumentation of the literal functions
+
+C17: "… with `-f` or `-c` (no `-M`) [peak memory] is bounded in terms of the longest record, not the
+number of records …".  `Tuc.Props.Space` proves this for `-l` forward-only, the fast lane and `-M` and
+leaves out the general engine — `read_and_cut_str` / `cut_str`: `-f` off the fast lane (`-g`, `-p`,
+`-r`, `-m`, `-t`, `-e`, multi-byte delimiters, format strings …), `-c`, `--json`.  `Tuc.Model.Space2`
+copies the statement-level functions of that path (`Tuc.Model.ReadLoops`: bstr's
+`for_byte_record[_with_terminator]`, std's `read_until`; `Tuc.Model.CutStrLit`: `cut_str` and its
+helpers; `Tuc.Model.WholeLit`: the closure and `read_and_cut_str`) and adds ghost results: the largest
+length of bstr's record-assembly buffer `bytes` (`Peak.bytes`), of the two scratch vectors `fields` /
+`compressed_line_buf` that live across records, and of the per-record temporaries `line_holder`, the
+complemented / unpacked bounds lists, an owned `field_to_print` (`RecPeak`; the table in the header of
+the model file says where each is taken).  This file proves:
+
+(a) ERASURE — dropping the ghost components gives exactly the frozen functions, for all arguments,
+    all fuel, every reader (no hypothesis at all):
+    `readUntilLoopI_erase`, `outerLoopI_erase`, `forByteRecordWithTerminatorLoopI_erase`,
+    `forByteRecordLoopI_erase`; `maybeReplaceDelimiterLitI_erase`, `fieldToPrintI_erase`,
+    `outputClosureI_erase`, `tryForEachI_erase`, `compressStageI_erase`, `fieldsStageI_erase`,
+    `emitStageI_erase`, `cutStrLitI_erase`; `cutStrLitClosureI_sim` (the instrumented closure is the
+    frozen one with a ghost next to its captured state) and `outerLoop_sim` / `whileFindByte_sim` (the
+    frozen loops do not see such a component) give `readAndCutStrWholeI_erase :
+    (readAndCutStrWholeI opt stdin).1 = WholeLit.readAndCutStrWhole opt stdin`.
+
+(b) BOUNDS, for every option record, every input, every segmentation into non-empty reads.
+    * CLOSED FORM — `readAndCutStrWholeI_peak`: the `cut_str` part of the ghost is
+      `execSup (recPeak opt) (recOk opt) (records eol input)`: the componentwise maximum of a PER-RECORD
+      peak (a function of the option record and of that record alone) over the EXECUTED records (all up
+      to and including the first whose call returns `Err`); it does not depend on the chunking; and
+      `bytes ≤ longestLine`.  From `outerLoopI_spec` (the `'outer` loop: the captured state after the
+      loop is `foldState` over bstr's records, `bytes` never exceeds the longest of them),
+      `foldState_trimmed`, `foldState_closure`.
+    * `readAndCutStrWholeI_bytes_le`: `bytes ≤ longest record + 1` (the terminator).  `bytes` holds the
+      record that straddles two reads, the FIRST record of every read after the first one (io.rs:336
+      `read_until` is called with an empty fragment too) and the fragment after the last terminator of
+      a read; with a single read that ends with the terminator it stays EMPTY
+      (`readAndCutStrWholeI_bytes_single`); complete records are otherwise lent as slices of the
+      `BufReader`'s buffer.
+    * `readAndCutStrWholeI_cut_le`: `cut ≤ recBound opt (longest record)`, i.e. with
+      `len` = the longest record, `r` = the length of the replacement (`-r`; 0 without), `B` = the number
+      of entries of the bounds list of the option record, `w = len + (len + 1) · r` (`wide`):
+        - `fields` ≤ `w + 2` entries (`…_fields_le`) — one range per field; `+ 2`: with the empty
+          delimiter (`-c`) a match at every position, both ends included, gives `len + 2` ranges, the two
+          boundary ones are popped at l.353-354; REACHED (`#guard`: `-c` on `abcde`: 7).  Without `-r`:
+          `≤ len + 2` (`…_fields_le_record`) — C17's statement.  (`w` instead of `len` only because with
+          `-e -p -r R` the vector is filled from the REPLACED line, l.317-346.)
+        - `compressed_line_buf` ≤ `len` bytes (`…_compressedLineBuf_le`; `compress_delimiter` never
+          writes more than it reads: `compressAux_length_le`),
+        - `line_holder`, an owned `field_to_print` ≤ `w` bytes (`…_cow_le`; `replaceMatches_length_le`:
+          the unmatched bytes once + one replacement per match, at most `len + 1` matches; REACHED with
+          the empty delimiter: `-d '' -r '<=>'` on `ab` gives 11 = `wide 3 2` bytes),
+        - the complemented list ≤ `2 · B` entries WHATEVER the input, the unpacked list ≤ `2 · B · (w + 2)`
+          entries (`…_bounds_le`: at most one entry per field for each (complemented) bound; both lists
+          are alive while `unpack` runs).
+      Each bound is INDEPENDENT of the number of records; `r` and `B` come from the option record only.
+
+(c) MORE RECORDS, SAME PEAK — `readAndCutStrWholeI_replicate`: `k + 1` copies of a block that ends with
+    the terminator, read in ANY non-empty pieces, have exactly the `cut` peaks of one copy (read in any
+    pieces), and `bytes` stays under the longest line of ONE copy.  (`bytes` itself is not an invariant
+    of "the same input, more often": it depends on where the reads fall — `#guard`.)
+
+(d) NOTHING ACCUMULATES — `cutStrLitI_scratch`: with ANY content in `fields` / `compressed_line_buf` on
+    entry, `cut_str` makes the same run, its ghost is the one from empty vectors plus the two lengths on
+    arrival, and afterwards each vector is either UNTOUCHED (early return: refused options, record empty
+    after trimming; `compressed_line_buf` also whenever l.327 is not reached) or holds what THIS record
+    put there; `cutStrLitI_vectors_after`: in the second case at most `w + 2` ranges resp. `len` bytes for
+    the length `len` of this very record, however long the previous ones were; `foldState_closure`: over
+    the loop the vectors always fit under the accumulator.  A vector that is not cleared (or cleared
+    down to a stale prefix only) contradicts the second alternative.
+
+HYPOTHESES
+* `∀ s ∈ segs, s ≠ []` (closed form, bounds, replicate) — the `BufRead` contract: an empty `fill_buf()`
+  IS end of input for the loops (io.rs:305, mod.rs:2266), `List.flatten` does not see an empty chunk.
+  Cannot be dropped for the closed form (`#guard`: `["a-b\n", "", "c-d-e\n"]`); the real program
+  cannot reach such a state (`BufReader::fill_buf` is empty only at EOF) — as in `Tuc.Props.ReadLoops`.
+* `OptBagOK opt` (bounds of `cut`; not needed for erasure, closed form, replicate, `bytes`) — for the regex
+  bag of the option record, if there is one: `RegexBag.OK` (matches in order, in range, not overlapping:
+  the hypothesis of the safety theorems) and AT MOST ONE MATCH PER POSITION (`≤ len + 1` matches on a
+  haystack of `len` bytes).  Decidable per haystack, a statement about the regex crate in general; it
+  holds for no bag (no `-e`: `optBagOK_of_none`), for the bag of `-c` (`bagOK_chars`) and for every bag of
+  the executable matcher (`bagOK_of_re`): `optBagOK_of_program`.  Cannot be dropped: `bagMany` reports 50
+  empty matches at offset 0 (`RegexBag.OK` holds) and a 1-byte record leaves 51 ranges (`#guard`).  The
+  real program cannot reach such a state as long as `regex::bytes::Regex::find_iter` keeps its
+  documented behaviour (successive non-overlapping matches; an empty match is not reported twice at
+  the same offset nor adjacent to the end of the previous match).
+* replicate: `block.getLast? = some eol` — it only says which inputs are "the same records, more often"
+  (two copies of `a-b` are ONE record of three fields: `#guard`).
+
+No bound failed: no buffer of this path grows across records.  Things one may want to know although
+they are within C17's wording: the peaks are in ENTRIES — a `Range<usize>` is 16 bytes, so `-c` on a
+record of `len` ASCII bytes holds `16 · (len + 2)` bytes of ranges; `--json -f 1:,1:` allocates, PER
+RECORD, a list of two entries per field; bstr copies the first record of every read after the first
+one (performance, not space).
+
+NOT covered: the allocator; the growth policy of `Vec` (capacity < 2 × peak length); the payload of
+the `BoundOrFiller`s that `complement` / `unpack` build (clones of filler / fallback strings of the
+OPTION record); the `BufReader` / `BufWriter` of `main` (fixed capacities); the regex crate's
+internals (caches, iterators); `serde_json::to_string`'s `String` per printed field (≤ 6 × field + 2
+bytes, one at a time); the per-bound `Vec`s inside `flat_map`; the stack; `fill_with_fields_locations*`
+and `compress_delimiter` are entered through their normal-form models, as in `Tuc.Model.CutStrLit`
+(`clear`, then only `push` / `extend`: the peak during the call is the larger of the lengths on entry
+and on exit, both taken).  Those stay with the measurements of C17 (counting allocator).
+-/
 set_option linter.unusedSimpArgs false
 namespace Tuc
 namespace Space2
@@ -18,6 +120,7 @@ open Space (maxLen rawLines rawLinesAux longestLine longestRecord)
 
 /-! ## 1. erasure -/
 
+/-- **erasure, `read_until`**: all fuel, every reader, every value of the accumulator -/
 theorem readUntilLoopI_erase (d : UInt8) : ∀ (fuel : Nat) (r : List Bytes) (buf : Bytes) (read p : Nat),
     (readUntilLoopI d fuel r buf read p).1 = readUntilLoop d fuel r buf read := by
   intro fuel
@@ -41,6 +144,8 @@ theorem readUntilLoopI_erase (d : UInt8) : ∀ (fuel : Nat) (r : List Bytes) (bu
         · exact ih _ _ _ _
       · simp only [hi, if_false]
 
+/-- **erasure, the `'outer` loop of `for_byte_record_with_terminator`**: for every closure, all fuel,
+    every reader, every content of `bytes`, every value of the accumulator -/
 theorem outerLoopI_erase {σ : Type} (t : UInt8) (f : Closure σ) :
     ∀ (fuel : Nat) (stdin : List Bytes) (bytes : Bytes) (consumed : Nat) (st : σ) (p : Nat),
     ((outerLoopI t f fuel stdin bytes consumed st p).1, (outerLoopI t f fuel stdin bytes consumed st p).2.1) =
@@ -72,12 +177,14 @@ theorem outerLoopI_erase {σ : Type} (t : UInt8) (f : Closure σ) :
               · rw [← ih]
             · rfl
 
+/-- **erasure, `for_byte_record_with_terminator`** -/
 theorem forByteRecordWithTerminatorLoopI_erase {σ : Type} (t : UInt8) (f : Closure σ) (stdin : List Bytes)
     (st : σ) :
     ((forByteRecordWithTerminatorLoopI t f stdin st).1, (forByteRecordWithTerminatorLoopI t f stdin st).2.1) =
       forByteRecordWithTerminatorLoop t f stdin st :=
   outerLoopI_erase t f _ _ _ _ _ _
 
+/-- **erasure, `for_byte_record`** -/
 theorem forByteRecordLoopI_erase {σ : Type} (t : UInt8) (f : Closure σ) (stdin : List Bytes) (st : σ) :
     ((forByteRecordLoopI t f stdin st).1, (forByteRecordLoopI t f stdin st).2.1) =
       forByteRecordLoop t f stdin st :=
@@ -89,6 +196,7 @@ def Sim {σ γ : Type} (fI : Closure (σ × γ)) (f : Closure σ) : Prop :=
     (fI record (st, g)).1 = (f record st).1 ∧ (fI record (st, g)).2.1 = (f record st).2.1 ∧
       (fI record (st, g)).2.2.1 = (f record st).2.2
 
+/-- io.rs:308-320 (the frozen function) does not see a ghost component of the captured state -/
 theorem whileFindByte_sim {σ γ : Type} (t : UInt8) (fI : Closure (σ × γ)) (f : Closure σ) (h : Sim fI f) :
     ∀ (fuel : Nat) (buf : Bytes) (consumed : Nat) (st : σ) (g : γ),
       (whileFindByte t fI fuel buf consumed (st, g)).run = (whileFindByte t f fuel buf consumed st).run ∧
@@ -172,6 +280,7 @@ theorem outerLoop_sim {σ γ : Type} (t : UInt8) (fI : Closure (σ × γ)) (f : 
             simp only [ih]
 
 
+/-- **erasure, `maybe_replace_delimiter`** -/
 theorem maybeReplaceDelimiterLitI_erase (text : Bytes) (opt : Opt) :
     (maybeReplaceDelimiterLitI text opt).1 = maybeReplaceDelimiterLit text opt := by
   unfold maybeReplaceDelimiterLitI maybeReplaceDelimiterLit
@@ -181,6 +290,7 @@ theorem maybeReplaceDelimiterLitI_erase (text : Bytes) (opt : Opt) :
     | none => rfl
     | some nd => cases opt.regexBag <;> rfl
 
+/-- **erasure, l.416-434** (stated for a variable bound: `resolve` is never unfolded) -/
 theorem fieldToPrintI_erase (line : Bytes) (fields : List Range) (n : Nat) (opt : Opt) (dar : Bool)
     (b : UserBounds) :
     (fieldToPrintI line fields n opt dar b).1 = fieldToPrint line fields n opt dar b := by
@@ -219,6 +329,7 @@ theorem fieldToPrintI_erase (line : Bytes) (fields : List Range) (n : Nat) (opt 
             · rfl
             · rw [maybeReplaceDelimiterLitI_erase]
 
+/-- **erasure, the closure of `try_for_each`** (l.407-446) -/
 theorem outputClosureI_erase (line : Bytes) (fields : List Range) (n : Nat) (opt : Opt) (dar : Bool)
     (bof : BoF) :
     (outputClosureI line fields n opt dar bof).1 = outputClosure line fields n opt dar bof := by
@@ -227,6 +338,7 @@ theorem outputClosureI_erase (line : Bytes) (fields : List Range) (n : Nat) (opt
   | bound b =>
     simp only [outputClosureI, outputClosure, fieldToPrintI_erase]
 
+/-- **erasure, `try_for_each`** -/
 theorem tryForEachI_erase (line : Bytes) (fields : List Range) (n : Nat) (opt : Opt) (dar : Bool) :
     ∀ l : List BoF, (tryForEachI line fields n opt dar l).1 = tryForEach line fields n opt dar l := by
   intro l
@@ -234,6 +346,7 @@ theorem tryForEachI_erase (line : Bytes) (fields : List Range) (n : Nat) (opt : 
   | nil => rfl
   | cons bof rest ih => simp only [tryForEachI, tryForEach, ih, outputClosureI_erase]
 
+/-- **erasure, l.300-330** -/
 theorem compressStageI_erase (line : Bytes) (opt : Opt) (buf : Bytes) :
     (compressStageI line opt buf).1 = CutStrLit.compressStage line opt buf := by
   simp only [compressStageI, CutStrLit.compressStage]
@@ -251,6 +364,7 @@ theorem compressStageI_erase (line : Bytes) (opt : Opt) (buf : Bytes) :
     · simp only [h2, Bool.false_eq_true, if_false]
   · simp only [h1, Bool.false_eq_true, if_false]
 
+/-- **erasure, l.332-355** -/
 theorem fieldsStageI_erase (loc : Locals) (opt : Opt) (fields : List Range) :
     (fieldsStageI loc opt fields).1 = CutStrLit.fieldsStage loc opt fields := by
   unfold fieldsStageI CutStrLit.fieldsStage
@@ -268,6 +382,7 @@ theorem fieldsStageI_erase (loc : Locals) (opt : Opt) (fields : List Range) :
     split <;> rfl
 
 
+/-- **erasure, l.357-455** -/
 theorem emitStageI_erase (line : Bytes) (fields : List Range) (opt : Opt) (dar : Bool) (eol : Bytes) :
     (emitStageI line fields opt dar eol).1 = CutStrLit.emitStage line fields opt dar eol := by
   simp only [emitStageI, CutStrLit.emitStage]
@@ -292,6 +407,8 @@ theorem emitStageI_erase (line : Bytes) (fields : List Range) (opt : Opt) (dar :
         | panic => rfl
         | ok bounds' => simp only [tryForEachI_erase]
 
+/-- **erasure, `cut_str`**: the run and the two vectors as the function leaves them, for every record,
+    every option record, any content of the vectors -/
 theorem cutStrLitI_erase (line : Bytes) (opt : Opt) (fields : List Range) (buf eol : Bytes) :
     ((cutStrLitI line opt fields buf eol).1, (cutStrLitI line opt fields buf eol).2.1,
       (cutStrLitI line opt fields buf eol).2.2.1) = CutStrLit.cutStrLit line opt fields buf eol := by
@@ -332,6 +449,7 @@ theorem cutStrLitClosureI_sim (opt : Opt) : Sim (cutStrLitClosureI opt) (WholeLi
   simp [cutStrLitClosureI, WholeLit.cutStrLitClosure, ← cutStrLitI_erase]
 
 
+/-- the wrapper of `for_byte_record` (io.rs:195-197) keeps the simulation -/
 theorem trimmed_sim {σ γ : Type} (t : UInt8) (fI : Closure (σ × γ)) (f : Closure σ) (h : Sim fI f) :
     Sim (ReadLoops.trimmed t fI) (ReadLoops.trimmed t f) := by
   intro record st g
@@ -1887,5 +2005,275 @@ theorem optBagOK_of_program (opt : Opt)
   · rw [h] at hbag; injection hbag with hbag; subst hbag; exact bagOK_chars
   · rw [h] at hbag; injection hbag with hbag; subst hbag; exact bagOK_of_re r
 
+/-! ## 9. when `bytes` is used at all -/
+
+theorem memchr_none_not_mem (t : UInt8) : ∀ l : Bytes, memchr t l = none → t ∉ l := by
+  intro l
+  induction l with
+  | nil => intro _ h; cases h
+  | cons c tl ih =>
+    intro h
+    unfold memchr at h
+    by_cases hc : c = t
+    · rw [if_pos hc] at h; cases h
+    · rw [if_neg hc] at h
+      cases hm : memchr t tl with
+      | some j => rw [hm] at h; cases h
+      | none =>
+        intro hmem
+        rcases List.mem_cons.mp hmem with e | e
+        · exact hc e.symm
+        · exact ih hm e
+
+/-- io.rs:308-320: what the loop leaves in `buf` is a suffix of the chunk without terminator -/
+theorem whileFindByte_leftover {σ : Type} (t : UInt8) (f : Closure σ) :
+    ∀ (fuel : Nat) (buf : Bytes) (consumed : Nat) (st : σ), buf.length < fuel →
+    (whileFindByte t f fuel buf consumed st).breakOuter = false →
+    t ∉ (whileFindByte t f fuel buf consumed st).buf ∧
+      ∃ pre, buf = pre ++ (whileFindByte t f fuel buf consumed st).buf := by
+  intro fuel
+  induction fuel with
+  | zero => intro buf consumed st h; omega
+  | succ fuel ih =>
+    intro buf consumed st hfuel
+    rw [ReadLoops.whileFindByte_succ]
+    cases hm : memchr t buf with
+    | none =>
+      intro _
+      exact ⟨memchr_none_not_mem t buf hm, [], rfl⟩
+    | some index =>
+      have hlt := ReadLoops.memchr_some_lt t buf index hm
+      simp only
+      rw [ReadLoops.splitAt?_of_le buf (index + 1) (by omega)]
+      simp only
+      have hdl : (buf.drop (index + 1)).length < fuel := by simp; omega
+      by_cases hok : (f (buf.take (index + 1)) st).1.status = .ok
+      · by_cases hk : (f (buf.take (index + 1)) st).2.1 = true
+        · simp only [hok, hk, if_true]
+          intro hb
+          obtain ⟨i1, pre, i2⟩ := ih (buf.drop (index + 1)) _ _ hdl hb
+          refine ⟨i1, buf.take (index + 1) ++ pre, ?_⟩
+          rw [List.append_assoc, ← i2, List.take_append_drop]
+        · simp [hok, hk]
+      · simp [hok]
+
+/-- **a single read that ends with the terminator** (the whole input fits into the `BufReader`, or
+    a reader that hands out whole lines): every record is lent as a slice of the reader's buffer,
+    bstr's `bytes` stays EMPTY.  It is used for the record that straddles two reads, for the first
+    record of every read after the first one (l.336 is reached with an empty fragment), and for the
+    fragment after the last terminator of a read (l.325) — `#guard`s in section 10. -/
+theorem readAndCutStrWholeI_bytes_single (opt : Opt) (input : Bytes) (hne : input ≠ [])
+    (hend : input.getLast? = some opt.eol.byte) :
+    (readAndCutStrWholeI opt [input]).2.bytes = 0 := by
+  have e : (readAndCutStrWholeI opt [input]).2.bytes =
+      (outerLoopI opt.eol.byte (ReadLoops.trimmed opt.eol.byte (cutStrLitClosureI opt))
+        (fuelFor [input]) [input] [] 0 ((([] : List Range), ([] : Bytes)), ({} : RecPeak)) 0).2.2.2 := rfl
+  rw [e]
+  have hf : fuelFor [input] = (2 * totalBytes [input] + 1) + 1 := rfl
+  rw [hf, outerLoopI_succ]
+  have hfb : fillBuf [input] = input := rfl
+  have hce : input.isEmpty = false := by
+    cases input with
+    | nil => exact absurd rfl hne
+    | cons _ _ => rfl
+  rw [hfb, hce]
+  simp only [Bool.false_eq_true, if_false]
+  obtain ⟨_, hw2⟩ := ReadLoops.whileFindByte_spec opt.eol.byte
+    (ReadLoops.trimmed opt.eol.byte (cutStrLitClosureI opt)) [] (input.length + 1) input 0
+    ((([] : List Range), ([] : Bytes)), ({} : RecPeak)) (by omega)
+  have hl := whileFindByte_leftover opt.eol.byte
+    (ReadLoops.trimmed opt.eol.byte (cutStrLitClosureI opt)) (input.length + 1) input 0
+    ((([] : List Range), ([] : Bytes)), ({} : RecPeak)) (by omega)
+  generalize whileFindByte opt.eol.byte (ReadLoops.trimmed opt.eol.byte (cutStrLitClosureI opt))
+    (input.length + 1) input 0 ((([] : List Range), ([] : Bytes)), ({} : RecPeak)) = w at hw2 hl ⊢
+  cases hb : w.breakOuter with
+  | true => simp only [if_true]
+  | false =>
+    simp only [Bool.false_eq_true, if_false]
+    obtain ⟨hnot, pre, hpre⟩ := hl hb
+    have hbuf : w.buf = [] := by
+      cases hwb : w.buf with
+      | nil => rfl
+      | cons c tl =>
+        exfalso
+        apply hnot
+        rw [hpre, hwb, List.getLast?_append] at hend
+        have : (c :: tl).getLast? = some opt.eol.byte := by
+          cases hg : (c :: tl).getLast? with
+          | none => simp at hg
+          | some x => rw [hg] at hend; simpa using hend
+        rw [hwb]
+        exact List.mem_of_getLast? this
+    have hcons := hw2 hb
+    unfold afterWhileI
+    rw [hcons, Nat.zero_add, StreamLoop.consume_all, hbuf]
+    simp [readUntilLoopI, fillBuf, memchr, consume, bytesSpace, totalBytes]
+
+/-! ## 10. by evaluation
+
+The instrumented functions are executable.  Options as `main` builds them (`ReadLoops.mkOpt`:
+parsed bounds, delimiter `-`).  Bytes: `a` = 97, `-` = 45, LF = 10. -/
+
+section Guards
+open ReadLoops (mkOpt bytesOf)
+
+/-- how the run ends, the peak of `bytes`, and the six components of `RecPeak` in the order
+    fields, compressed_line_buf, line_holder, complemented, unpacked, field_to_print -/
+def peakOf (o : Opt) (reads : List String) : Status × Nat × List Nat :=
+  let p := (readAndCutStrWholeI o (reads.map bytesOf)).2
+  ((readAndCutStrWholeI o (reads.map bytesOf)).1.status, p.bytes,
+   [p.cut.fields, p.cut.compressedLineBuf, p.cut.lineHolder, p.cut.complemented, p.cut.unpacked,
+    p.cut.fieldToPrint])
+
+def optS : Opt := mkOpt "2" fun o => { o with compressDelimiter := true }
+def optX : Opt := mkOpt "2" fun o => { o with complement := true }
+def optJ : Opt := mkOpt "2:" fun o => { o with json := true }
+def optXJ : Opt := mkOpt "2,4" fun o => { o with complement := true, json := true, fallbackOob := some [70] }
+def optR : Opt := mkOpt "1:2" fun o => { o with replaceDelimiter := some (bytesOf "<=>"), join := true }
+def optC : Opt :=
+  mkOpt "2:3" fun o => { o with delimiter := [], boundsType := .characters, regexBag := some charsBag }
+def optE : Opt :=
+  mkOpt "2" fun o => { o with regexBag := some (Re.bag (Re.cls [0x2d, 0x2c])),
+                              replaceDelimiter := some (bytesOf "::"), compressDelimiter := true }
+
+-- `bytes` (bstr): one read that ends with the terminator — every record is lent as a slice of the
+-- reader's buffer, `bytes` stays empty …
+#guard peakOf (mkOpt "2") ["a-b-c\nd-e\n"] == (.ok, 0, [3, 0, 0, 0, 0, 0])
+-- … two reads that both end with the terminator: the first record of the SECOND read goes
+-- through `bytes` (l.336 `read_until`), 4 bytes with its terminator …
+#guard peakOf (mkOpt "2") ["a-b-c\n", "d-e\n"] == (.ok, 4, [3, 0, 0, 0, 0, 0])
+-- … a record that straddles the reads is assembled there: `a-b-c` LF, 6 bytes = longest record + 1
+#guard peakOf (mkOpt "2") ["a-b", "-c\nd-e\n"] == (.ok, 6, [3, 0, 0, 0, 0, 0])
+#guard longestRecord 10 (bytesOf "a-b-c\nd-e\n") == 5
+-- … the fragment after the last terminator of a read (l.325), here the final `d-e` without LF
+#guard peakOf (mkOpt "2") ["a-b-c\nd-e"] == (.ok, 3, [3, 0, 0, 0, 0, 0])
+-- `fields`: one range per field (`a-b-c`: 3); `compressed_line_buf` (`-p`): `a-b-c`, 5 bytes of the 8
+#guard peakOf optS ["a--b---c\nd-e\n"] == (.ok, 0, [3, 5, 0, 0, 0, 0])
+-- `-m`: the complement of `2` on 3 fields is `1,3:3`: two entries, whatever the record
+#guard peakOf optX ["a-b-c\nd-e\n"] == (.ok, 0, [3, 0, 0, 2, 0, 0])
+-- `--json -f 2:` on 5 fields: unpacked into `2,3,4,5`
+#guard peakOf optJ ["a-b-c-d-e\nd-e\n"] == (.ok, 0, [5, 0, 0, 0, 4, 0])
+-- `--json -m -f 2,4`: 2 + 2 complemented entries, unpacked into 1 + 3 + 3 + 1 (both lists alive)
+#guard peakOf optXJ ["a-b-c-d-e\nd-e\n"] == (.ok, 0, [5, 0, 0, 4, 8, 0])
+-- `-r '<=>'`: the field `a-b` is printed as the owned `a<=>b`
+#guard peakOf optR ["a-b-c\nd-e\n"] == (.ok, 0, [3, 0, 0, 0, 0, 5])
+-- `-c`: `héllo` has 5 characters: 5 + the two boundary ranges that l.353-354 pop
+#guard peakOf optC ["héllo\nabc\n"] == (.ok, 0, [7, 0, 0, 0, 0, 0])
+-- `-e '[-,]' -p -r '::'`: `a-,-b,c` becomes the `line_holder` `a::b::c` (7 bytes)
+#guard peakOf optE ["a-,-b,c\nd-e\n"] == (.ok, 0, [3, 0, 7, 0, 0, 0])
+-- the first record fails (no field 3, no fallback): the second one is never cut
+#guard peakOf (mkOpt "3") ["x\na-b-c-d-e\n"] == (.fail, 0, [1, 0, 0, 0, 0, 0])
+#guard peakOf (mkOpt "3" fun o => { o with fallbackOob := some [70] }) ["x\na-b-c-d-e\n"] ==
+  (.ok, 0, [5, 0, 0, 0, 0, 0])
+
+/-! ### non-vacuity of the main theorems -/
+
+/-- `readAndCutStrWholeI_cut_le`, `_bytes_le`, `_peak` apply: reads without an empty chunk, an option
+    record without `-e` -/
+example : (readAndCutStrWholeI optXJ [[97, 45, 98, 45, 99, 45, 100], [45, 101, 10, 100, 45, 101, 10]]).2.cut ≤
+    recBound optXJ (longestRecord optXJ.eol.byte
+      [[97, 45, 98, 45, 99, 45, 100], [45, 101, 10, 100, 45, 101, 10]].flatten) :=
+  readAndCutStrWholeI_cut_le optXJ _ (by decide) (optBagOK_of_program optXJ (Or.inl rfl))
+
+/-- … the option record of `-c` (the bag `\b|\B`) … -/
+example : (readAndCutStrWholeI optC [[104, 195, 169, 108, 108, 111, 10, 97, 98, 99, 10]]).2.cut ≤
+    recBound optC (longestRecord optC.eol.byte [[104, 195, 169, 108, 108, 111, 10, 97, 98, 99, 10]].flatten) :=
+  readAndCutStrWholeI_cut_le optC _ (by decide) (optBagOK_of_program optC (Or.inr (Or.inl rfl)))
+
+/-- … and one with `-e` -/
+example : (readAndCutStrWholeI optE [[97, 45, 44, 45, 98, 44, 99, 10, 100, 45, 101, 10]]).2.cut ≤
+    recBound optE (longestRecord optE.eol.byte [[97, 45, 44, 45, 98, 44, 99, 10, 100, 45, 101, 10]].flatten) :=
+  readAndCutStrWholeI_cut_le optE _ (by decide) (optBagOK_of_program optE (Or.inr (Or.inr ⟨_, rfl⟩)))
+
+-- the numbers: `recBound` for the longest record (9 bytes) of the `--json -m` example: w = 9 (no `-r`)
+#guard recBound optXJ 9 ==
+  { fields := 11, compressedLineBuf := 9, lineHolder := 9, complemented := 4, unpacked := 44, fieldToPrint := 9 }
+-- with `-r '<=>'` (3 bytes) and a longest record of 5 bytes: w = 5 + 6 · 3 = 23
+#guard recBound optR 5 ==
+  { fields := 25, compressedLineBuf := 5, lineHolder := 23, complemented := 2, unpacked := 50, fieldToPrint := 23 }
+-- the `fields` bound `len + 2` is reached (`-c` on ASCII: one range per character + 2) …
+#guard peakOf optC ["abcde\n"] == (.ok, 0, [7, 0, 0, 0, 0, 0])
+-- … and so is `wide` for an owned field with the EMPTY delimiter: `-d '' -r '<=>' -f 1:` turns the
+-- 2-byte record into `<=>a<=>b<=>` = 2 + 3 · 3 bytes
+#guard peakOf (mkOpt "1:" fun o => { o with delimiter := [], replaceDelimiter := some (bytesOf "<=>") })
+  ["ab\n"] == (.ok, 0, [4, 0, 0, 0, 0, 11])
+#guard wide 3 2 == 11
+
+/-- `readAndCutStrWholeI_replicate`: a block its hypothesis holds for -/
+example : ([97, 45, 98, 45, 99, 10, 100, 45, 101, 10] : Bytes).getLast? = some EOL.newline.byte := by decide
+
+-- three copies, read in other pieces: the same `cut` peaks; `bytes` moves with the pieces but stays
+-- under the longest line (6) of one copy
+#guard peakOf optXJ ["a-b-c-d-e\nd-e\n"] == (.ok, 0, [5, 0, 0, 4, 8, 0])
+#guard peakOf optXJ ["a-b-c-d-e\nd-", "e\na-b-c-d-e\nd-e\na-b", "-c-d-e\nd-e\n"] == (.ok, 10, [5, 0, 0, 4, 8, 0])
+#guard longestLine 10 (bytesOf "a-b-c-d-e\nd-e\n") == 10
+-- `bytes` is NOT the same for "the same reads, three times": the first record of each later read is
+-- copied (equality holds for the `cut` part only)
+#guard peakOf (mkOpt "1") ["ab\n"] == (.ok, 0, [1, 0, 0, 0, 0, 0])
+#guard peakOf (mkOpt "1") ["ab\n", "ab\n", "ab\n"] == (.ok, 3, [1, 0, 0, 0, 0, 0])
+-- the block has to end with the terminator: two copies of `a-b` are ONE record of three fields
+#guard peakOf (mkOpt "1") ["a-b"] == (.ok, 3, [2, 0, 0, 0, 0, 0])
+#guard peakOf (mkOpt "1") ["a-ba-b"] == (.ok, 6, [3, 0, 0, 0, 0, 0])
+-- 300 records of 2 fields in reads of 7 bytes
+#guard (readAndCutStrWholeI optXJ
+    (StreamLoop.segsOf (List.replicate 300 [97, 45, 97, 10]).flatten (List.replicate 200 7))).2 ==
+  { bytes := 4, cut := { fields := 2, complemented := 2 } }
+
+/-! ### the hypotheses cannot be dropped -/
+
+-- `∀ s ∈ segs, s ≠ []` (closed form, hence replicate): an empty read is EOF for the loops
+-- (io.rs:305), invisible to `flatten` — the record `c-d-e` is never cut
+#guard peakOf (mkOpt "2") ["a-b\n", "", "c-d-e\n"] == (.ok, 0, [2, 0, 0, 0, 0, 0])
+#guard (execSup (recPeak (mkOpt "2")) (recOk (mkOpt "2")) (records 10 (bytesOf "a-b\nc-d-e\n"))).fields == 3
+
+/-- a "regex" that reports 50 empty matches at offset 0: in order, in range, not overlapping
+    (`RegexBag.OK` holds) — but not "at most one match per position" -/
+def bagMany : RegexBag := { normal := fun _ => List.replicate 50 (0, 0), greedy := fun _ => List.replicate 50 (0, 0) }
+
+-- `OptBagOK`: with `bagMany` a record of ONE byte leaves 51 ranges in `fields` (bound: 1 + 2)
+#guard peakOf (mkOpt "1" fun o => { o with regexBag := some bagMany }) ["a\n"] == (.ok, 0, [51, 0, 0, 0, 0, 0])
+
+/-! ### nothing accumulates (`cutStrLitI_vectors_after`, `cutStrLitI_scratch`) -/
+
+/-- what a long previous record may have left behind -/
+def dirtyFields : List Range := List.replicate 100 ⟨0, 0⟩
+def dirtyBuf : Bytes := List.replicate 1000 120
+
+-- a record of two fields after that: `fields` holds 2 ranges, `compressed_line_buf` 3 bytes; the ghost
+-- of the call saw the 100 / 1000 on arrival
+#guard (cutStrLitI (bytesOf "a--b") optS dirtyFields dirtyBuf [10]).2.1.length == 2
+#guard (cutStrLitI (bytesOf "a--b") optS dirtyFields dirtyBuf [10]).2.2.1 == bytesOf "a-b"
+#guard (cutStrLitI (bytesOf "a--b") optS dirtyFields dirtyBuf [10]).2.2.2 ==
+  { fields := 100, compressedLineBuf := 1000 }
+#guard (cutStrLitI (bytesOf "a--b") optS [] [] [10]).2.2.2 == { fields := 2, compressedLineBuf := 3 }
+-- a record that is empty after trimming: `cut_str` returns at l.297, both vectors untouched
+#guard (cutStrLitI (bytesOf "--") { optS with trim := some .both } dirtyFields dirtyBuf [10]).2.1.length == 100
+-- without `-p` `compressed_line_buf` is never touched
+#guard (cutStrLitI (bytesOf "a--b") (mkOpt "2") dirtyFields dirtyBuf [10]).2.2.1.length == 1000
+-- over a whole input: a record of 9 fields, then 200 records of 2 fields — the peak is the 9
+#guard (readAndCutStrWholeI optS [bytesOf "a-b-c-d-e-f-g-h-i\n" ++ (List.replicate 200 [97, 45, 97, 10]).flatten]).2.cut ==
+  { fields := 9, compressedLineBuf := 17 }
+
+/-! ### erasure, closed form and bounds on every input of at most 4 bytes over `{a, -, LF}` × every
+    segmentation × 9 option records (5 bytes for two of them) -/
+
+def testOpts : List Opt :=
+  [mkOpt "2", optS, optX, optJ, optXJ, optR, optE,
+   mkOpt "-1" fun o => { o with greedyDelimiter := true, trim := some .both },
+   mkOpt "1:" fun o => { o with delimiter := [], replaceDelimiter := some (bytesOf "<=>"), onlyDelimited := true }]
+
+/-- erasure, closed form, `recBound`, `bytes ≤ longest line` on every segmentation of `w` -/
+def checkAll (o : Opt) (w : Bytes) : Bool :=
+  (StreamLoop.segmentations w).all fun segs =>
+    let r := readAndCutStrWholeI o segs
+    r.1 == WholeLit.readAndCutStrWhole o segs &&
+      r.2.cut == execSup (recPeak o) (recOk o) (records o.eol.byte w) &&
+      decide (r.2.cut ≤ recBound o (longestRecord o.eol.byte w)) &&
+      r.2.bytes ≤ longestLine o.eol.byte w
+
+#guard testOpts.all fun o => (StreamLoop.wordsUpTo [0x61, 0x2d, 0x0a] 4).all (checkAll o)
+#guard [optXJ, optE].all fun o => (StreamLoop.wordsN [0x61, 0x2d, 0x0a] 5).all (checkAll o)
+
+end Guards
 end Space2
 end Tuc
